@@ -569,7 +569,8 @@ def _audit_hook(event, args):
         if isinstance(flags, int) and flags & (os.O_WRONLY | os.O_RDWR | os.O_CREAT | os.O_TRUNC | os.O_APPEND):
             writing = True
         if writing:
-            _audit["log"].append(os.path.abspath(path))
+            # the file the OS opens for the path given (abspath would collapse `link/..` lexically)
+            _audit["log"].append(os.path.realpath(path))
     except Exception:       # never disturb the code under test
         pass
 
@@ -692,7 +693,7 @@ def run_signapp_hash(path, cwd=None):
              "exit": code, "exc": exc}, [bytes(x) for x in p.sha.inputs], out)
 
 
-def run_signapp_message(path, iteration, out_path=None, cwd=None):
+def run_signapp_message(path, iteration, out_path=None, cwd=None, out_read=None):
     """`signapp message`: the hash embedded in the authorization message (stdout form, or the JSON
     file written with -o)."""
     install_boundary()
@@ -706,7 +707,7 @@ def run_signapp_message(path, iteration, out_path=None, cwd=None):
     hx = None
     if out_path:
         try:
-            with open(os.path.join(cwd or ".", out_path)) as f:
+            with open(out_read or os.path.join(cwd or ".", out_path)) as f:
                 hx = json.load(f)["signer"]["hash"]
         except Exception:
             hx = None
@@ -806,7 +807,7 @@ def verifies(vk, der, digest):
 # ----------------------------------------------------------------------------------------------
 # invocation shapes (spec/AppImage.tla: setup.dirs, Forms)
 # ----------------------------------------------------------------------------------------------
-DEFAULT_FORM = {"addr": "rel", "cwd": "imgdir", "pub": "rel"}
+DEFAULT_FORM = {"addr": "rel", "cwd": "imgdir", "pub": "rel", "spell": "plain"}
 
 
 def image_relpaths(dirs, n):
@@ -827,33 +828,92 @@ def image_relpaths(dirs, n):
 
 
 class Invocation:
-    """One way of naming the same files on a command line."""
+    """One way of naming the same files on a command line: relative / absolute / `./x`, from the
+    images' directory or another one, and spelled plainly or not in normal form (through `d/..`,
+    through symbolic links, `//`, `/./`).  Whatever the spelling, the OS resolves it to the file
+    meant (checked here with realpath); `decoy` (HEX text of an image that is none of the session's)
+    is put where a `link/..` spelling collapses to lexically."""
 
-    def __init__(self, root, form):
-        self.root = root
+    def __init__(self, root, form, decoy=None):
+        self.root = os.path.realpath(root)
         self.form = dict(DEFAULT_FORM, **(form or {}))
-        self.cwd = root if self.form["cwd"] == "imgdir" else os.path.join(root, "wd", "sub")
+        self.cwd = self.root if self.form["cwd"] == "imgdir" else os.path.join(self.root, "wd", "sub")
+        self.decoy = decoy
         os.makedirs(self.cwd, exist_ok=True)
 
-    def img_arg(self, rel, pos=0):
+    def _link(self, target, name):
+        link = os.path.join(self.root, "links", name)
+        os.makedirs(os.path.dirname(link), exist_ok=True)
+        if not os.path.lexists(link):
+            os.symlink(target, link)
+        elif os.readlink(link) != target:
+            raise ValueError("link %s points elsewhere" % link)
+        return link
+
+    def spell(self, target, output=False):
+        """absolute spelling of `target` (an absolute, real path below root) according to form.spell"""
+        sp = self.form["spell"]
+        d, n = os.path.split(target)
+        tag = hashlib.sha1(d.encode()).hexdigest()[:6]
+        if sp == "dotdot-real":
+            os.makedirs(os.path.join(d, "sub.d"), exist_ok=True)
+            return d + "/sub.d/../" + n
+        if sp in ("dotdot-link-decoy", "dotdot-link-empty"):
+            os.makedirs(os.path.join(d, "bin"), exist_ok=True)
+            link = self._link(os.path.join(d, "bin"), "latest_" + tag)
+            collapsed = os.path.join(self.root, "links", n)
+            if sp == "dotdot-link-decoy" and not output and self.decoy is not None \
+                    and not os.path.lexists(collapsed):
+                with open(collapsed, "w", newline="") as f:
+                    f.write(self.decoy)
+            return link + "/../" + n
+        if sp == "via-link":
+            return self._link(d, "dir_" + tag) + "/" + n
+        if sp == "file-link":
+            return self._link(target, "f_%s_%s" % (tag, n))
+        if sp == "slashes":
+            return d + "//" + n
+        if sp == "inner-dot":
+            return d + "/./" + n
+        return target
+
+    def arg(self, target, addr, output=False, suffix=""):
+        """(argument naming `target`, the file the OS opens for argument + suffix)"""
+        spelled = self.spell(target, output)
+        if not spelled.startswith(self.root + "/"):
+            raise ValueError("spelling left the session root: %s" % spelled)
+        if addr == "abs":
+            a = spelled
+        else:
+            tail = spelled[len(self.root) + 1:]
+            if tail.startswith("/"):            # `root//x`: keep the doubled slash, stay relative
+                tail = "./" + tail
+            a = tail if self.cwd == self.root else "../../" + tail
+            if addr == "dotslash":
+                a = "./" + a
+        resolved = os.path.realpath(os.path.join(self.cwd, a))
+        if resolved != os.path.realpath(target):
+            raise ValueError("spelling %r resolves to %s, not to %s" % (a, resolved, target))
+        return a, os.path.realpath(os.path.join(self.cwd, a + suffix))
+
+    def img_arg(self, rel, pos=0, suffix=""):
         addr = self.form["addr"]
         if addr == "mixed":
             addr = "abs" if pos % 2 else "rel"
-        absolute = os.path.join(self.root, rel)
-        if addr == "abs":
-            return absolute
-        r = os.path.relpath(absolute, self.cwd)
-        return ("." + os.sep + r) if addr == "dotslash" else r
+        return self.arg(os.path.join(self.root, rel), addr, False, suffix)
 
-    def out_file(self, name):
+    def out_file(self, name, base=None):
         """(absolute path of the output file, the argument naming it)"""
         loc = self.form["pub"]
-        if loc == "otherdir":
+        if base is not None:
+            absf = os.path.join(base, name)
+        elif loc == "otherdir":
             absf = os.path.join(self.root, "elsewhere", "out dir", name)
         else:
             absf = os.path.join(self.root, name)
         os.makedirs(os.path.dirname(absf), exist_ok=True)
-        return absf, (absf if loc == "abs" else os.path.relpath(absf, self.cwd))
+        a, _ = self.arg(absf, "abs" if loc == "abs" else "rel", True)
+        return absf, a
 
 
 class Session:
@@ -861,7 +921,10 @@ class Session:
 
     def __init__(self, root, layouts, contents, rng, dirs="flat"):
         install_boundary()
+        root = os.path.realpath(root)
         self.root = root
+        junk = rng.randbytes(9)
+        self.decoy = hex_text(Layout([(0, 0x40, junk)], [("ela", 0), ("data", 0x40, junk), ("eof",)]))
         os.makedirs(os.path.join(root, "keys"), exist_ok=True)
         self.layouts = layouts                   # image id (1-based) -> Layout
         self.contents = list(contents)           # image id -> content class
@@ -917,10 +980,12 @@ class Session:
         root = self.root
         if form is None:
             form = {"addr": "rel" if relative else "abs", "cwd": "imgdir", "pub": "rel" if relative else "abs"}
-        inv = Invocation(root, form)
+        inv = Invocation(root, form, self.decoy)
         pub_abs, pub_arg = inv.out_file(self.PUB_NAMES[pubn])
         pub_id = pubn + (10 if inv.form["pub"] == "otherdir" else 0)
-        img_args = [inv.img_arg(self.img_paths[i], k) for k, i in enumerate(imgs)]
+        spelled = [inv.img_arg(self.img_paths[i], k, ".sig") for k, i in enumerate(imgs)]
+        img_args = [a for a, _ in spelled]
+        sig_expected = {p: i for (_, p), i in zip(spelled, imgs)}   # where the OS puts `<path given>.sig`
         sep = ", " if spaces else ","
         argv = ["signonetime.py", "-a", sep.join(img_args), "-p", pub_arg]
         import signonetime
@@ -956,6 +1021,10 @@ class Session:
             pubs_by_n[os.path.join(root, "elsewhere", "out dir", v)] = k + 10
         img_by_path = {os.path.join(root, v): k for k, v in self.img_paths.items()}
         sig_by_path = {os.path.join(root, v) + ".sig": k for k, v in self.img_paths.items()}
+        for k in imgs:                   # a signature left next to the file does not count when the
+            if os.path.join(root, self.img_paths[k]) + ".sig" not in sig_expected:   # operator named a link
+                sig_by_path.pop(os.path.join(root, self.img_paths[k]) + ".sig", None)
+        sig_by_path.update(sig_expected)
         # the key in the file at the -p path comes first among the candidates
         cand_keys = []
         pub_vk = None
@@ -969,6 +1038,8 @@ class Session:
                 cand_keys.append((kid, REG.vks[kid]))
         files, notes = [], []
         for q in paths:
+            if not os.path.isfile(q):
+                continue
             with open(q, "rb") as f:
                 content = f.read()
             if q in pubs_by_n:
@@ -1057,7 +1128,10 @@ class AuthSession:
 
     def __init__(self, root, layouts, contents, pre, rng, dirs="flat", otherdir=False):
         install_boundary()
+        root = os.path.realpath(root)
         self.root = root
+        junk = rng.randbytes(9)
+        self.decoy = hex_text(Layout([(0, 0x40, junk)], [("ela", 0), ("data", 0x40, junk), ("eof",)]))
         # the -o files of a session stay where they are (so that a path given again is the same file);
         # only the way they are named on the command line changes from one invocation to the next
         self.out_root = os.path.join(root, "elsewhere", "out dir") if otherdir else root
@@ -1084,12 +1158,12 @@ class AuthSession:
         root = self.root
         if form is None:
             form = {"addr": "rel" if relative else "abs", "cwd": "imgdir", "pub": "rel" if relative else "abs"}
-        inv = Invocation(root, form)
-        argv = ["signapp.py", "message", "-a", inv.img_arg(self.img_paths[img], int(iteration)), "-i",
+        inv = Invocation(root, form, self.decoy)
+        argv = ["signapp.py", "message", "-a", inv.img_arg(self.img_paths[img], int(iteration))[0], "-i",
                 str(iteration)]
         if out:
             out_abs = os.path.join(self.out_root, self.OUT_NAMES[out])
-            argv += ["-o", out_abs if inv.form["pub"] == "abs" else os.path.relpath(out_abs, inv.cwd)]
+            argv += ["-o", inv.arg(out_abs, "abs" if inv.form["pub"] == "abs" else "rel", True)[0]]
         with Patched(argv, inv.cwd) as p:
             code, exc = _call_main(signapp)
         text = p.out.getvalue()
